@@ -5,7 +5,7 @@
    where); powf is a finite lookup table produced by the harness with the same std function
    (`c11-powf`), and a miss yields a sentinel no real result has, so a missing entry shows up as a
    correspondence mismatch (fail closed). *)
-From Coq Require Import String Ascii List ZArith Bool.
+From Coq Require Import String Ascii List ZArith Bool FMapPositive.
 Require Import Blots.Num Blots.gen.Builtins Blots.Ast Blots.Value Blots.Outcome Blots.Show Blots.Binop
   Blots.BinopSpec.
 Import ListNotations.
@@ -24,6 +24,23 @@ Fixpoint powf_lookup (tab : list (Z * Z * Z)) (x y : Z) : num :=
   end.
 Definition powf_of_table (tab : list (Z * Z * Z)) (x y : num) : num :=
   powf_lookup tab (bits_of_num x) (bits_of_num y).
+
+(* the same table as a two-level positive trie (lookup cost independent of the table size) *)
+Definition ptab := PositiveMap.t (PositiveMap.t Z).
+Definition pkey (z : Z) : positive := Z.to_pos (z + 1).
+Definition ptab_add (t : ptab) (e : Z * Z * Z) : ptab :=
+  let '(x, y, r) := e in
+  let inner := match PositiveMap.find (pkey x) t with Some m => m | None => PositiveMap.empty Z end in
+  PositiveMap.add (pkey x) (PositiveMap.add (pkey y) r inner) t.
+Definition ptab_of_list (l : list (Z * Z * Z)) : ptab := fold_left ptab_add l (PositiveMap.empty _).
+Definition powf_of_ptab (t : ptab) (x y : num) : num :=
+  match PositiveMap.find (pkey (bits_of_num x)) t with
+  | Some m => match PositiveMap.find (pkey (bits_of_num y)) m with
+              | Some r => num_of_bits r
+              | None => powf_miss
+              end
+  | None => powf_miss
+  end.
 
 Definition call_unmodelled (_ _ : value) (_ : list value) (st : unit) : outcome value * unit :=
   (Unmodelled, st).
